@@ -6,6 +6,7 @@ specification side: Spec/Info/Mpeg.lean (frame header: Spec/Mpeg.lean).
 -/
 import MutagenModel.Proofs.Info.MpegLame
 import MutagenModel.Proofs.Info.MpegSync
+import MutagenModel.Proofs.Info.MpegShort
 set_option linter.unusedVariables false
 namespace Mutagen.C05
 open Mutagen Mutagen.Info Mutagen.Spec.Mp3
@@ -103,6 +104,86 @@ arbitrary bytes ends (the model has no fuel that could run out: `skip_id3` moves
 four frames are tried at each of at most 1499 syncs) -/
 theorem mpeg_info_total (f : Bytes) : ∀ e, Mp3.parse f = .error e → e = .mutagen :=
   fun e h => Mp3.parse_clean f e h
+
+/-! ### `MPEGInfo(fileobj, offset)`
+
+`MP3(filename)` passes the size of the ID3v2 tag it has just read as `offset`.  Whatever precedes the offset is not looked
+at: a stream behind ANY prefix `pre`, read from `offset = pre.length`, decodes to what the stream encodes, the frame
+offset counted from the start of the file.  (The theorems above are the case `pre = []`.) -/
+
+theorem mpeg_info_decodes_cbr_at (pre : Bytes) (c : Cbr) (ok : c.OK) :
+    Mp3.parseFrom (pre ++ c.build) pre.length = .ok { c.expected with frameOffset := pre.length + c.lead.render.length } :=
+  Mp3.parse_cbr_at pre c ok
+
+theorem mpeg_info_decodes_xing_at (pre : Bytes) (s : XingStream) (ok : s.OK) :
+    Mp3.parseFrom (pre ++ s.build) pre.length = .ok { s.expected with frameOffset := pre.length + s.lead.render.length } :=
+  Mp3.parse_xing_at pre s ok
+
+theorem mpeg_info_decodes_vbri_at (pre : Bytes) (s : VbriStream) (ok : s.OK) :
+    Mp3.parseFrom (pre ++ s.build) pre.length = .ok { s.expected with frameOffset := pre.length + s.lead.render.length } :=
+  Mp3.parse_vbri_at pre s ok
+
+theorem mpeg_info_decodes_lame_at (pre : Bytes) (s : LameStream) (ok : s.OK) :
+    Mp3.parseFrom (pre ++ s.build) pre.length = .ok { s.expected with frameOffset := pre.length + s.lead.render.length } :=
+  Mp3.parse_lame_at pre s ok
+
+/-- without an offset: from 0 -/
+theorem mpeg_info_offset_none (f : Bytes) : Mp3.parse f = Mp3.parseFrom f 0 := rfl
+
+/-- C04 side with an offset: on every byte string and from every offset (inside the file, at its end, behind it)
+`MPEGInfo(fileobj, offset)` returns or raises HeaderNotFoundError -/
+theorem mpeg_info_offset_total (f : Bytes) (offset : Nat) : ∀ e, Mp3.parseFrom f offset = .error e → e = .mutagen :=
+  fun e h => Mp3.parseFrom_clean f offset e h
+
+/-- the loop of `skip_id3` ends by itself: the fuel `f.length + 1` the model gives it is never used up (any two fuels
+above `f.length − pos` give the same position) -/
+theorem mpeg_skip_id3_fuel (f : Bytes) (fuel fuel' pos : Nat) (h1 : f.length < pos + fuel) (h2 : f.length < pos + fuel') :
+    Mp3.skipId3 f fuel pos = Mp3.skipId3 f fuel' pos :=
+  Mp3.skipId3_fuel f fuel pos fuel' h1 h2
+
+/-! ### fewer than four consecutive frames: the `sketchy` fallback -/
+
+/-- C05 for MP3, a stream that stops after one to three frames (tags and junk as above; each frame with any valid header,
+no VBR header; behind the last frame anything that is not a header; no pair of bytes that looks like a sync except where
+the frames begin, so that no later sync starts a longer chain): with two or three frames `MPEGInfo` reports the FIRST
+frame's header values with `sketchy = True` and the length estimate 8 · (size − offset) / bitrate (min_frames = 2: the first
+sync that gave two frames is kept while all later syncs are tried and fail); one frame alone is refused with
+HeaderNotFoundError.  From any offset, behind any prefix. -/
+theorem mpeg_info_decodes_short_at (pre : Bytes) (s : Short) (ok : s.OK) :
+    Mp3.parseFrom (pre ++ s.build) pre.length =
+      match s.expected with
+      | some i => .ok { i with frameOffset := pre.length + s.lead.render.length }
+      | none => .error .mutagen :=
+  Mp3.parse_short_at pre s ok
+
+theorem mpeg_info_decodes_short (s : Short) (ok : s.OK) :
+    Mp3.parse s.build = match s.expected with
+      | some i => .ok i
+      | none => .error .mutagen :=
+  Mp3.parse_short s ok
+
+/-- `MPEGFrame`'s header decoding succeeds only behind a sync (0xFF, then a byte with the top three bits set) -/
+theorem mpeg_frame_header_needs_sync (b : Bytes) (h : Mpeg.FrameInfo) (hd : Mpeg.decodeHeader b = .ok h) :
+    ∃ y r, b = 0xFF :: y :: r ∧ y.toNat / 32 = 7 := by
+  obtain ⟨y, r, h1, h2⟩ := Mp3.decode_sync b h hd
+  exact ⟨y, r, h1, by simpa [Mp3.isSecond] using h2⟩
+
+/-- satisfiable, with two frames (sketchy result) and with one (refused) -/
+example : ∃ s : Short, s.OK ∧ s.frames.length = 2 ∧ s.trailing ≠ [] :=
+  ⟨{ lead := { tags := [], junk := [0, 1] },
+     frames := [{ hdr := { version := 3, layer := 1, protection := 1, bitrateIndex := 9, rateIndex := 0, padding := 0, priv := 0, mode := 0, rest := 0 },
+                  body := List.replicate 413 0 },
+                { hdr := { version := 2, layer := 2, protection := 0, bitrateIndex := 3, rateIndex := 1, padding := 1, priv := 0, mode := 3, rest := 5 },
+                  body := List.replicate 141 7 }],
+     trailing := [0xFF, 0x00, 0xE0] },
+   by unfold Short.OK quietFrames quietFrames quietFrames plainFrame; decide +kernel, rfl, by decide⟩
+
+example : ∃ s : Short, s.OK ∧ s.expected = none :=
+  ⟨{ lead := { tags := [], junk := [] },
+     frames := [{ hdr := { version := 3, layer := 1, protection := 1, bitrateIndex := 9, rateIndex := 0, padding := 0, priv := 0, mode := 0, rest := 0 },
+                  body := List.replicate 413 0 }],
+     trailing := [] },
+   by unfold Short.OK quietFrames quietFrames plainFrame; decide +kernel, rfl⟩
 
 /-- `iter_sync` as it is written — chunks of 2, 4, 8, … bytes, a sync that straddles two chunks found through the last
 byte kept from the previous chunk, `max_read` cutting the last chunk — yields, on every file, from every position and
